@@ -95,7 +95,8 @@ def cases(draw, tier):
             "heap": 10 ** 4 if kind == "many_unique_sites" else draw(st.sampled_from(
                 [1, 10, 1000, 1000, 10 ** 4, "inf" if kind in ("first_bad", "length_k", "last_symbol") else 10])),
             "layout": draw(st.sampled_from([None, None, None, "F", "strided", "offset", "int32"])),
-            "np_start": draw(st.sampled_from([False, False, True]))}
+            "np_start": draw(st.sampled_from([False, False, True])),
+            "np_args": draw(st.sampled_from([False, False, False, True]))}
 
 
 def evaluate(case):
@@ -112,7 +113,8 @@ def evaluate(case):
     budget_lines = line_budget(n, k, heap, sites)
     result, lookups, lines = repairing.run_repair(rows, k, start, text, check=check, has_indel=case["indel"],
                                                   heap_size=heap, line_budget=budget_lines,
-                                                  layout=case.get("layout"), np_start=bool(case.get("np_start")))
+                                                  layout=case.get("layout"), np_start=bool(case.get("np_start")),
+                                              np_args=bool(case.get("np_args")))
     labels = ["kind:" + case["kind"], "walk" if walk else "not_walk", "k=%d" % k,
               "len>=150" if n >= 150 else "len<150"]
     what = "repair_dna(%r, k=%d, start=%d, check=%r, has_indel=%s, heap_size=%g)" \
